@@ -108,6 +108,10 @@ pub fn panic_message(e: &(dyn std::any::Any + Send)) -> String {
     }
 }
 
+fn is_arith(msg: &str) -> bool {
+    msg.contains("overflow") || msg.contains("underflow") || msg.contains("divide by zero")
+}
+
 fn jstr(s: &str) -> String {
     serde_json::to_string(s).unwrap()
 }
@@ -764,12 +768,14 @@ impl World {
         let st = &mut self.st;
         let r = catch_unwind(AssertUnwindSafe(|| arena.mutate(|mc, root| f(st, mc, root))));
         let panicked = r.is_err();
+        let msg = r.err().map(|e| panic_message(&*e)).unwrap_or_default();
         self.drain_releases();
         ev!(
-            "{{\"ev\":\"cb_end\",\"a\":{},\"kind\":\"mutate\",\"panicked\":{},\"consumed\":false,\"msg\":{},{}}}",
+            "{{\"ev\":\"cb_end\",\"a\":{},\"kind\":\"mutate\",\"panicked\":{},\"consumed\":false,\"msg\":{},\"arith\":{},{}}}",
             self.st.id,
             panicked,
-            jstr(&r.err().map(|e| panic_message(&*e)).unwrap_or_default()),
+            jstr(&msg),
+            is_arith(&msg),
             self.state_fields()
         );
         !panicked
@@ -825,15 +831,17 @@ impl World {
             }
         };
         let panicked = r.is_err();
+        let msg = r.err().map(|e| panic_message(&*e)).unwrap_or_default();
         let consumed = self.arena.is_none();
         self.drain_releases();
         ev!(
-            "{{\"ev\":\"cb_end\",\"a\":{},\"kind\":\"{}\",\"panicked\":{},\"consumed\":{},\"msg\":{},{}}}",
+            "{{\"ev\":\"cb_end\",\"a\":{},\"kind\":\"{}\",\"panicked\":{},\"consumed\":{},\"msg\":{},\"arith\":{},{}}}",
             self.st.id,
             via.name(),
             panicked,
             consumed,
-            jstr(&r.err().map(|e| panic_message(&*e)).unwrap_or_default()),
+            jstr(&msg),
+            is_arith(&msg),
             self.state_fields()
         );
         if consumed {
@@ -887,6 +895,7 @@ impl World {
         let pay = matches!(kind, "collect_debt" | "mark_debt" | "cycle_debt");
         if pay && !natural {
             self.metrics.set_pacing(Self::stepping_pacing(g, cont));
+            ev!("{{\"ev\":\"set_pacing\",\"a\":{},\"stepping\":true,\"mf\":{}}}", self.st.id, if g == "P2" { 16 } else { 0 });
             if b == 0 {
                 let m = &self.metrics;
                 m.adjust_debt(BIG);
@@ -944,15 +953,38 @@ impl World {
         let msg = r.err().map(|e| panic_message(&*e)).unwrap_or_default();
         self.drain_releases();
         ev!(
-            "{{\"ev\":\"call_end\",\"a\":{},\"kind\":\"{}\",\"marked\":{},\"panicked\":{},\"msg\":{},\"fault_left\":{},\"traces\":{},{}}}",
+            "{{\"ev\":\"call_end\",\"a\":{},\"kind\":\"{}\",\"marked\":{},\"panicked\":{},\"msg\":{},\"arith\":{},\"fault_left\":{},\"traces\":{},{}}}",
             self.st.id,
             kind,
             marked,
             panicked,
             jstr(&msg),
+            is_arith(&msg),
             disarmed,
             trace_calls(),
             self.state_fields()
+        );
+    }
+
+    pub fn debt_q_pub(&self) -> i64 {
+        self.debt_q()
+    }
+
+    /// Pacing with dyadic factors (16ths), logged for the monitor.
+    pub fn set_pacing_q(&mut self, sf: i64, ms: i64, mf: i64, tf: i64, kf: i64, df: i64, ff: i64) {
+        let f = |x: i64| x as f64 / 16.0;
+        self.metrics.set_pacing(Pacing {
+            sleep_factor: f(sf),
+            min_sleep: ms as usize,
+            mark_factor: f(mf),
+            trace_factor: f(tf),
+            keep_factor: f(kf),
+            drop_factor: f(df),
+            free_factor: f(ff),
+        });
+        ev!(
+            "{{\"ev\":\"set_pacing\",\"a\":{},\"sf\":{},\"ms\":{},\"mf\":{},\"tf\":{},\"kf\":{},\"df\":{},\"ff\":{}}}",
+            self.st.id, sf, ms, mf, tf, kf, df, ff
         );
     }
 
